@@ -3,6 +3,7 @@ package main
 import (
 	"fmt"
 	"go/constant"
+	"strconv"
 	"go/types"
 	"sort"
 	"strings"
@@ -649,6 +650,11 @@ func (e *SpecEnv) trBinary(x *EBinary) Val {
 			}
 			return Val{T: t, Ty: tBool}
 		}
+	}
+	// constant folding in double arithmetic: a spec literal expression such as 35.0 / 3072.0
+	// denotes what the Go compiler / a JavaScript engine computes, i.e. the rounded double
+	if v, ok := constFold(x); ok {
+		return Val{T: c.floatLit(v), Ty: tF}
 	}
 	a, b := e.tr(x.X), e.tr(x.Y)
 	a, b = e.coerce(a, b)
@@ -1527,4 +1533,51 @@ func (e *SpecEnv) specCallFrame(sf *SpecFunc, si *specInst, cur []string, depth 
 	c.assume(implies(info.reach, fmt.Sprintf("(forall (%s%s) (! (=> %s (= %s %s)) :pattern (%s) :pattern (%s)))", fuelBinder, strings.Join(binders, " "), and(guard...), lhs, rhs, lhs, rhs)))
 	c.assumed["meta: spec functions read only cells reachable from their arguments (call frame axiom for "+sf.Name+")"] = true
 	e.specCallFrame(sf, si, prev, depth+1)
+}
+
+// constFold evaluates a literal-only arithmetic expression containing at least
+// one float literal in float64 arithmetic.
+func constFold(x Expr) (float64, bool) {
+	hasFloat := false
+	var ev func(e Expr) (float64, bool)
+	ev = func(e Expr) (float64, bool) {
+		switch t := e.(type) {
+		case *EFloat:
+			hasFloat = true
+			v, err := strconv.ParseFloat(t.V, 64)
+			return v, err == nil
+		case *EInt:
+			v, err := strconv.ParseFloat(t.V, 64)
+			return v, err == nil
+		case *EUnary:
+			if t.Op == "-" {
+				v, ok := ev(t.X)
+				return -v, ok
+			}
+		case *EBinary:
+			a, ok1 := ev(t.X)
+			b, ok2 := ev(t.Y)
+			if !ok1 || !ok2 {
+				return 0, false
+			}
+			switch t.Op {
+			case "+":
+				return a + b, true
+			case "-":
+				return a - b, true
+			case "*":
+				return a * b, true
+			case "/":
+				if b != 0 {
+					return a / b, true
+				}
+			}
+		}
+		return 0, false
+	}
+	if b, ok := x.(*EBinary); !ok || (b.Op != "+" && b.Op != "-" && b.Op != "*" && b.Op != "/") {
+		return 0, false
+	}
+	v, ok := ev(x)
+	return v, ok && hasFloat
 }
